@@ -25,6 +25,11 @@ func IsAssociative(schema *openapi.ResourceSchema, nodes []*yaml.RNode, infer bo
 		if yaml.IsMissingOrNull(node) {
 			continue
 		}
+		// an empty list has no element to infer a merge key from: every key is
+		// trivially "present in all elements"; let the non-empty sources decide
+		if len(node.Content()) == 0 {
+			continue
+		}
 		if node.IsAssociative() {
 			return true
 		}
